@@ -351,3 +351,87 @@ func ZZC13CallCopies() {
 }
 
 func init() { vn.Register("process.ZZC13CallCopies", ZZC13CallCopies) }
+
+// ZZC04Forward: forwards, split and drop steps.
+//  * a positive forward re-emits exactly the message it received (rule, both channels, label)
+//  * a negative forward asks its client to continue on the forward's providers (FWD request)
+//  * split creates two fresh channels, hands them to the continuation and spawns a forward that
+//    provides exactly these two channels from the split channel
+//  * drop spawns a droppable forward (GC request to a negative client) and continues
+func ZZC04Forward() {
+	w := zzNewStepWorld(NORMAL_ASYNC)
+	self := Name{IsSelf: true}
+	pos, neg := types.POSITIVE, types.NEGATIVE
+	kind := vn.Pick(4)
+	q := &zzTProbe{}
+	u := w.ch[0]
+	take := func(c chan Message) (Message, bool) {
+		select {
+		case m := <-c:
+			return m, true
+		default:
+			return Message{}, false
+		}
+	}
+	switch kind {
+	case 0: // positive forward relays
+		u.ExplicitPolarity = &pos
+		rule := []Rule{SND, CLS, SEL, CST}[vn.Pick(4)]
+		lab := vn.StrOf(vn.Int(0, 2), "l", "m", "n")
+		in := Message{Rule: rule, Channel1: w.ch[1], Channel2: w.ch[2], Label: Label{L: lab}}
+		u.Channel <- in
+		body := NewForward(self, u)
+		proc := NewProcess(body, []Name{w.pi}, nil, LINEAR, zzPos())
+		failed := vn.Try(func() { body.Transition(proc, w.re) })
+		vn.Drain()
+		out, ok := take(w.pi.Channel)
+		same := ok && out.Rule == rule
+		if same && (rule == SND || rule == SEL || rule == CST) {
+			same = out.Channel1.Channel == w.ch[1].Channel
+		}
+		if same && rule == SND {
+			same = out.Channel2.Channel == w.ch[2].Channel
+		}
+		okLabel := true
+		if same && rule == SEL {
+			okLabel = vn.EqS(out.Label.L, lab)
+		}
+		vn.Assert("C04.positive-forward-relays-the-message", vn.And(!failed && same, okLabel))
+		_, leftover := take(u.Channel)
+		vn.Assert("C04.positive-forward-consumes-once", !leftover)
+	case 1: // negative forward
+		u.ExplicitPolarity = &neg
+		body := NewForward(self, u)
+		proc := NewProcess(body, []Name{w.pi}, nil, LINEAR, zzPos())
+		failed := vn.Try(func() { body.Transition(proc, w.re) })
+		out, ok := take(u.Channel)
+		vn.Assert("C04.negative-forward-requests-handover", !failed && ok && out.Rule == FWD && len(out.Providers) == 1 && out.Providers[0].Channel == w.pi.Channel)
+		_, sent := take(w.pi.Channel)
+		vn.Assert("C04.negative-forward-sends-nothing-on-self", !sent)
+	case 2: // split
+		u.ExplicitPolarity = &neg
+		body := NewSplit(Name{Ident: "a"}, Name{Ident: "b"}, u, q)
+		proc := NewProcess(body, []Name{w.pi}, nil, LINEAR, zzPos())
+		failed := vn.Try(func() { body.Transition(proc, w.re) })
+		vn.Drain()
+		ok := !failed && q.ran == 1 && len(q.substs) == 2 && q.substs[0][0].Ident == "a" && q.substs[1][0].Ident == "b"
+		vn.Assert("C04.split-continues-with-two-new-names", ok)
+		if ok {
+			c1, c2 := q.substs[0][1].Channel, q.substs[1][1].Channel
+			fresh := c1 != nil && c2 != nil && c1 != c2 && c1 != u.Channel && c2 != u.Channel && c1 != w.pi.Channel && c2 != w.pi.Channel
+			vn.Assert("C04.split-channels-fresh", fresh)
+			req, got := take(u.Channel)
+			vn.Assert("C04.split-forward-provides-both", got && req.Rule == FWD && len(req.Providers) == 2 && req.Providers[0].Channel == c1 && req.Providers[1].Channel == c2)
+		}
+	default: // drop
+		u.ExplicitPolarity = &neg
+		body := NewDrop(u, q)
+		proc := NewProcess(body, []Name{w.pi}, nil, LINEAR, zzPos())
+		failed := vn.Try(func() { body.Transition(proc, w.re) })
+		vn.Drain()
+		req, got := take(u.Channel)
+		vn.Assert("C04.drop-continues-and-requests-collection", !failed && q.ran == 1 && len(q.substs) == 0 && got && req.Rule == GC)
+	}
+}
+
+func init() { vn.Register("process.ZZC04Forward", ZZC04Forward) }
